@@ -56,7 +56,7 @@ package bufanalysis
 //@   ensures json-fields: r.Path == ite(f.FileInfo() != nil, f.FileInfo().ExternalPath(), "") && r.StartLine == max(1, f.StartLine()) && r.StartColumn == max(1, f.StartColumn()) && r.EndLine == max(1, f.EndLine()) && r.EndColumn == max(1, f.EndColumn()) && r.Type == f.Type() && r.Message == f.Message() && r.Plugin == f.PluginName()
 //
 //@ trusted func PrintFileAnnotationSet(writer, fileAnnotationSet, formatString) (err)
-//@   modifies ghost.annotPrinted, ghost.fail, heap
+//@   modifies ghost.annotPrinted, ghost.fail, ghost.wfail, heap
 //@   ensures ghost.annotPrinted
 //@   ensures ghost.fail == (old(ghost.fail) || err != nil)
 //
@@ -70,7 +70,7 @@ package bufanalysis
 // JUnit names each test suite after the same file path the other formats print (minus ".proto").
 //@ func printAsJUnit(writer, fileAnnotations) (err)
 //@   property C20
-//@   modifies heap, ghost.fail, ghost.buf
+//@   modifies heap, ghost.fail, ghost.wfail, ghost.buf
 //@   reveal pathOf
 //@   assert before "testsuite := xml.StartElement" same-file-as-other-formats: path == ite(hasSuffix(pathOf(annotations[0]), ".proto"), substr(pathOf(annotations[0]), 0, len(pathOf(annotations[0])) - 6), pathOf(annotations[0]))
 //
